@@ -219,13 +219,17 @@ func (a *act) analyzeCFG() {
 				continue
 			}
 			if found.spec != nil && found.spec != ls {
-				// two specs matched the same text: take next loop with same text
+				// several loops have this header text: the specs are bound to them in source order
+				var next *loopInfo
 				for _, li := range a.loops {
-					if li.text == ls.Anchor && li.spec == nil {
-						found = li
-						break
+					if li.text == ls.Anchor && li.spec == nil && (next == nil || li.ordinal < next.ordinal) {
+						next = li
 					}
 				}
+				if next == nil {
+					continue
+				}
+				found = next
 			}
 			found.spec = ls
 		}
